@@ -807,9 +807,17 @@ func run(threads []Thread, prefix []int, horizon int) *Execution {
 			break
 		}
 		t.resume <- struct{}{}
-		select {
-		case <-rt.yield:
-		case <-time.After(StuckAfter):
+		arrived := false
+		// counted in half-second wake-ups of this process, not in wall time: a pause of the whole
+		// sandbox is not a stuck thread
+		for waited := time.Duration(0); waited < StuckAfter && !arrived; waited += 500 * time.Millisecond {
+			select {
+			case <-rt.yield:
+				arrived = true
+			case <-time.After(500 * time.Millisecond):
+			}
+		}
+		if !arrived {
 			// the thread that was resumed has not reached a scheduling point: it blocks on a
 			// primitive the shim does not model (a channel, a condition variable) or it loops.
 			// Its goroutine cannot be unwound; the caller decides (StuckHandler) - by default the
